@@ -764,3 +764,60 @@ def m_to_bytes(it, ctx, callee, args):
     if order == "be":
         bs = bs[::-1]
     return VecV(bs, "array")
+
+
+# ------------------------------------------------------------------------------------------
+# generic `next()` inside the re-implemented adaptors (engines/drivers/src/adaptors.rs)
+
+@model(r"<I as Iterator>::next")
+def m_generic_next(it, ctx, callee, args):
+    from .interp import TailCall, FnItem
+    st = deref(args[0])
+    if isinstance(st, Tup) and st.name and st.name.startswith("Iter:"):
+        if st.name == "Iter:bvec":
+            from . import rtmodels as RM
+            return RM.r_iter_next(it, ctx, callee, args)
+        return m_iter_next(it, ctx, callee, args)
+    if isinstance(st, Tup) and st.name and st.name.split("::")[-1].startswith("DrvFilter"):
+        return TailCall(FnItem("drv_filter_next"), [args[0]])
+    if isinstance(st, Tup) and st.name and st.name.split("::")[-1].startswith("DrvMap"):
+        return TailCall(FnItem("drv_map_next"), [args[0]])
+    raise Inconclusive("next() of %r" % (st,))
+
+
+def decode_last_char(ctx, el):
+    """(char Int, number of bytes) of the last character of a non-empty valid UTF-8 byte list; forks on its length"""
+    n = len(el)
+    for k in (1, 2, 3, 4):
+        if k > n:
+            break
+        lead = el[n - k].t
+        is_lead = z3.Not(z3.And(z3.UGE(lead, 0x80), z3.ULT(lead, 0xC0)))
+        if k == min(4, n) or ctx.branch(is_lead):
+            bs = [z3.ZeroExt(24, e.t) for e in el[n - k:]]
+            if k == 1:
+                c = bs[0]
+            elif k == 2:
+                c = ((bs[0] & 0x1F) << 6) | (bs[1] & 0x3F)
+            elif k == 3:
+                c = ((bs[0] & 0x0F) << 12) | ((bs[1] & 0x3F) << 6) | (bs[2] & 0x3F)
+            else:
+                c = ((bs[0] & 0x07) << 18) | ((bs[1] & 0x3F) << 12) | ((bs[2] & 0x3F) << 6) | (bs[3] & 0x3F)
+            return Int(c, "char"), k
+    raise Inconclusive("cannot decode the last character")
+
+
+@model(r"core::str::<impl str>::trim_end_matches")
+def m_trim_end_matches(it, ctx, callee, args):
+    el = list(elems_of(args[0]))
+    pat = args[1]
+    while el:
+        ch, k = decode_last_char(ctx, el)
+        if isinstance(pat, Int):
+            hit = ch.t == pat.t
+        else:
+            hit = as_bool(it.call_value(ctx, pat, [ch]))
+        if not ctx.branch(hit):
+            break
+        el = el[:-k]
+    return Slice(el, "str")
